@@ -564,7 +564,7 @@ Proof.
     + eapply win_on; [exact I' | exact Hs | apply incl_refl | | exact HR].
       cbn [out with_q with_blocked]. intros e t [<-|He] Ht; [destruct Ht|].
       destruct (flush_evs_tags _ _ e t He Ht) as (x & Hx & Ex).
-      exact (qpkt_ok_wt _ _ _ (proj1 (Forall_forall _ _) (inv_q _ _ I) x Hx) Ex).
+      exact (qpkt_ok_wt _ _ _ (proj1 (Forall_forall _ _) (inv_q _ _ I Hs) x Hx) Ex).
 Qed.
 
 End C12.
